@@ -33,6 +33,7 @@ VALID_ARGS = [
     I([T("k")]), DEP, R("<u>r</u>"), ["X", T("t")],
     ["PY", []], ["PY", [T("a"), ["PY", [["N", 1], ["NONE"], ["TU", [T("b")]]]]]],
     ["L", [T("x"), ["N", 2]]], ["TU", [T("t"), ["N", 3]]],
+    ["DUP", [T("d"), ["N", 6]]], ["NS", "-0.0"], ["N", 1.0], ["N", 0.0],
 ]
 INVALID_ARGS = [
     ["OBJ"], ["DICT"], ["SET"], ["BYTES"],
@@ -299,6 +300,10 @@ def apply_op(st: State | None, op):
     if newobj:
         if not isinstance(res, TagList):
             V(f"op={opkey}:result-type", f"{name} returned {type(res).__name__}, not a TagList")
+            return None, viols, True
+        if newobj is True and (res is recv or res.data is recv.data):
+            V(f"op={opkey}:aliases-receiver", f"{name} returned its receiver (or shares its storage): a later "
+              "mutation of either list would change the other")
             return None, viols, True
         if newobj is True:
             now = list(st.children())
